@@ -41,6 +41,14 @@ GENERIC_USED = [
     "hard-coding a default in the command-line client",
     "claiming an identifier with the wrong lock helper / wrong claim list",
     "Stream.read1 / stopping at a short block",
+    "moving the `.append(...)` that records a claim out of the `with <condition>:` block (dedenting it)",
+    "moving the `_find_object` call (or another call) out of the try whose handlers are meant for it",
+    "swapping the order in which the pid and the cid reference files are moved into place",
+    "pruning empty shard / metadata directories after a delete",
+    "a @contextmanager claim helper without try/finally",
+    "deleting the old metadata document before moving the new one into place",
+    "reading the cid reference file before taking the flock",
+    "threading primitives used in the multiprocessing arm (or the reverse)",
 ]
 
 SEED = """You are helping test a verification framework by acting as an independent "bug seeder". Work ONLY inside the git worktree {wt} (a checkout of the Python project DataONEorg/hashstore: a content-addressable file object store; source in {wt}/src/hashstore, tests in {wt}/tests). Do NOT read or touch /verif or /repo; do not look for any verification tooling. Everything you need is in the worktree.
@@ -92,6 +100,12 @@ FOCI = [
     "the identifier claims: introduce `@contextmanager` helpers (e.g. `_object_pid_claim(pid)`, `_cid_claim(cid)`, `_reference_pid_claim(pid)`, `_metadata_doc_claim(pid_doc)`) that call the existing `_synchronize_*` / `_release_*` helpers (or the inline blocks of store_metadata/delete_metadata) in a try/finally around `yield`, and use them with `with` in `delete_object`, `_delete_object_only`, `_store_hashstore_refs_files`, `store_metadata` and `delete_metadata` in place of the explicit try/finally blocks - claim and release points must stay exactly where they are (same order of claims, same order of releases).",
     "pathlib modernisation across `filehashstore.py`: replace `os.path.join` / `os.path.dirname` / `os.path.isfile` / `os.path.exists` / `os.path.getsize` by the equivalent `Path` operations ONLY where the result is identical for every input that reaches the call (beware: `Path.is_file()` swallows some OSErrors that `os.path.isfile` also swallows - that pair is equivalent; `Path(x) / y` with absolute `y` restarts like `os.path.join`); keep `shutil.move`, `os.remove` and `open` calls and their order.",
     "error handling tidy-up WITHOUT changing which exceptions propagate: name the exception variables consistently, replace `raise err` / `raise e` by bare `raise` only where the traceback difference is the only effect, merge duplicated log-message construction into small helpers, keep every `except` clause's class list, order and body effects (deletions, releases) identical.",
+    "the wait loops of the identifier claims: replace every `while ident in locked_list: condition.wait()` by the equivalent `condition.wait_for(lambda: ident not in locked_list)` (both in the `_synchronize_*` helpers and in the inline claim blocks of `store_metadata` / `delete_metadata`), keep the append that follows, the `with condition:` blocks, the releases and notifies exactly where they are; keep the debug logging as close as is reasonable.",
+    "`tag_object`, `_untag_object`, `_mark_pid_refs_file_for_deletion`, `_remove_pid_and_handle_cid_refs_deletion`, `_validate_and_check_cid_lock`: reduce duplication and nesting (guard clauses, small private helpers, consistent local names) while keeping every file operation, every raise, every swallowed error and every claim / release exactly where it is and in the same order.",
+    "module layout: move `Stream` and `ObjectMetadata` (and, if you like, the pure static helpers `_cast_to_bytes` / `_check_string` / `_check_integer` / `_check_arg_format_id` logic as module-level functions that the existing methods delegate to) into a new module `src/hashstore/_util.py` (or similar) and import them back into `filehashstore.py` so that every existing name (`hashstore.filehashstore.Stream`, `FileHashStore._check_string`, ...) keeps working for the tests and for callers.",
+    "`_delete`, `_rename_path_for_deletion`, `_delete_marked_files`, `_create_path`, `_get_store_path`, `_get_hashstore_data_object_path` / `_get_hashstore_metadata_path` / `_get_hashstore_pid_refs_path` / `_get_hashstore_cid_refs_path`: replace the if/elif chains over the entity name by a dict or `match` dispatch with the identical mapping and the identical error for an unknown entity; keep which path is tried first and every file operation.",
+    "`store_object`: split into `_store_object_with_pid` and `_store_object_without_pid` private methods called from `store_object` after the argument checks, keeping the claim of the pid, the try/except/finally coverage (what is released and logged on which path) and the order of `_store_and_validate_data` / `tag_object` exactly; rename locals for clarity.",
+    "result objects: replace the plain dict returned by `_find_object` / used between `_store_and_validate_data`, `_move_and_get_checksums` and `store_object` by small `typing.NamedTuple`s (or keep tuples but name the fields), updating every producer and consumer consistently, with the same keys / values flowing into `ObjectMetadata` and the same behaviour for every caller inside the package.",
     "`delete_metadata` and `delete_object`: reduce nesting - early returns, loop bodies extracted into private methods (e.g. `_delete_one_metadata_document(pid, path, objects_to_delete)`), keep the per-document claim / re-check / rename / release sequence and the order of `_delete_marked_files` / `delete_metadata` calls exactly.",
 ]
 
